@@ -56,15 +56,21 @@ def all_combos():
 
 
 def prop_names(arr):
-    return [p['name'] for p in arr['props']] + \
-        [p['name'] for p in arr['late']] + \
-        [b for b in BUILTIN if b not in [p['name'] for p in arr['props']]]
+    out = []
+    for n in [p['name'] for p in arr['props']] + \
+            [p['name'] for p in arr['late']] + BUILTIN:
+        if n not in out:
+            out.append(n)
+    return out
 
 
 def v1_combos(arrays, bytes_keys):
     """version-1 files hold no strides: only when every stored column has
     stride 1"""
     out = []
+    if any(a.get('exact') for a in arrays):
+        # version-1 files have no types (everything loads as double)
+        return out
     for d in (False, True):
         ok = True
         for a in arrays:
@@ -80,14 +86,140 @@ def v1_combos(arrays, bytes_keys):
     return out
 
 
-def mk_array(name, n, tags, props, late=(), consts=None, outs=()):
-    return dict(name=name, n=n, tags=list(tags), props=list(props),
-                late=list(late), consts=consts or {}, outs=list(outs))
+def mk_array(name, n, tags, props, late=(), consts=None, outs=(),
+             default_tag=0, exact=False, set_defaults=None):
+    tags = list(tags)
+    if exact:
+        # real particles first: the constructor's alignment is the identity
+        # and the driver can write the exact values row by row
+        tags = sorted(tags, key=lambda t: t != 0)
+    return dict(name=name, n=n, tags=tags, props=list(props),
+                late=list(late), consts=consts or {}, outs=list(outs),
+                default_tag=default_tag, exact=exact,
+                set_defaults=set_defaults or {})
 
 
-def mk_case(cid, arrays, sd, bytes_keys=False):
-    return dict(id=cid, arrays=arrays, sd=sd,
+# ---- solver data ---------------------------------------------------------
+def V(k, v=None, **kw):
+    return dict(k=k, v=v, **kw)
+
+
+def gen_sd(rng, k):
+    """(flat, rich): what both formats hold (numbers of any size, bools,
+    str, homogeneous sequences, numpy scalars / arrays) and, for npz only,
+    anything picklable (None, bytes, mixed lists, tuples, nested
+    dictionaries with int / bytes / str keys)."""
+    base = dict(
+        t=V('float', rng.choice(['f:' + (0.1 * rng.randint(0, 999)).hex(),
+                                 str(rng.randint(0, 9)), 'f:0x1.0p-3'])),
+        dt=V('float', 'f:' + (1e-5 * rng.randint(1, 99)).hex()),
+        count=V('int', str(rng.choice([0, k, 99999, 2 ** 31, 2 ** 53 + 1]))))
+    flat_pool = [
+        ('flag', V('bool', rng.random() < 0.5)),
+        ('scheme', V('str', rng.choice(['wcsph', '', 'a b', '0', "b'x'"]))),
+        ('big', V('int', str(rng.choice([-5, 2 ** 62 + 1, -2 ** 63])))),
+        ('dims', V('list', [V('int', str(i)) for i in
+                            range(rng.randint(1, 3))])),
+        ('box', V('list', [V('float', 'f:' + (0.1 * i).hex())
+                           for i in range(1, 4)])),
+        ('names', V('list', [V('str', 'fluid'), V('str', 'b')])),
+        ('npi', V('np', str(2 ** 53 + 1), dtype='int64')),
+        ('npf', V('np', 'f:' + float.hex(0.1), dtype='float32')),
+        ('arr', V('ndarray', ['f:0x1.8p+0', '2'], dtype='float64')),
+    ]
+    rich_pool = [
+        ('none', V('none')),
+        ('raw', V('bytes', rng.choice(['6162', '', '00ff']))),
+        ('raws', V('list', [V('bytes', '61'), V('bytes', '62')])),
+        ('mixed', V('list', [V('int', '1'), V('str', 'a'), V('none')])),
+        ('pair', V('tuple', [V('int', '1'), V('str', '1')])),
+        ('steps', V('dict', [[V('int', '0'), V('int', '120')],
+                             [V('str', '0'), V('int', '7')]])),
+        ('nest', V('dict', [[V('str', 'a'), V('dict', [
+            [V('int', str(rng.randint(1, 9))), V('bytes', '78')],
+            [V('bytes', '6b'), V('list', [V('str', 'v')])]])]])),
+        ('bkeys', V('dict', [[V('bytes', '6b'), V('str', 'v')]])),
+    ]
+    flat = dict(base)
+    for key, v in rng.sample(flat_pool, rng.randint(1, 4)):
+        flat[key] = v
+    rich = dict(flat)
+    for key, v in rng.sample(rich_pool, rng.randint(2, 5)):
+        rich[key] = v
+    return flat, rich
+
+
+def mk_case(cid, arrays, k=0, bytes_keys=False):
+    flat, rich = gen_sd(random.Random('sd:' + cid), k)
+    return dict(id=cid, arrays=arrays, sd_flat=flat, sd_rich=rich,
                 combos=all_combos() + v1_combos(arrays, bytes_keys))
+
+
+# values that exercise exactness, per C type (descriptions: int, or
+# 'f:<hex>' for a float)
+def fh(x):
+    return 'f:' + float(x).hex() if x == x and abs(x) != float('inf') \
+        else 'f:' + repr(float(x))
+
+
+def f32(x):
+    """x rounded to a C float (so that a default given for a float property
+    is the value the property holds)"""
+    import struct
+    return struct.unpack('f', struct.pack('f', x))[0]
+
+
+EXACT = {
+    'long': [2 ** 53 + 1, 2 ** 63 - 1, -2 ** 63, -(2 ** 53) - 1,
+             2 ** 62 + 3],
+    'int': [2 ** 31 - 1, -2 ** 31, 16777217, -16777217],
+    'unsigned int': [2 ** 32 - 1, 2 ** 31, 2 ** 31 + 1, 16777217],
+    'float': [fh(f32(0.1)), 16777216, fh(3.4028234663852886e+38), fh(-1.5),
+              fh(f32(1e-45)), 'f:-0.0', fh(f32(1.0 / 3))],
+    'double': [fh(0.1), 2 ** 53, fh(1e308), fh(5e-324), 'f:-0.0', 'f:inf',
+               fh(-2.5e-7)],
+}
+
+
+def exact_array(name, tags, fr_k, outs=None, default_tag=0):
+    """one stride-1 property per C type holding limit values"""
+    n = len(tags)
+    props = []
+    for i, typ in enumerate(TYPES):
+        vals = EXACT[typ]
+        props.append(dict(name='e' + typ[0] + str(i), type=typ, stride=1,
+                          default=vals[(fr_k + 1) % len(vals)],
+                          data=[vals[(fr_k + j) % len(vals)]
+                                for j in range(n)]))
+    arr = mk_array(name, n, tags, props, default_tag=default_tag, exact=True,
+                   consts={'cx': dict(data=[EXACT['double'][fr_k % 5],
+                                            2 ** 53 + 1], dtype='float64'),
+                           'cl': dict(data=[EXACT['long'][fr_k % 5]],
+                                      dtype='int64')})
+    arr['outs'] = prop_names(arr) if outs is None else outs
+    return arr
+
+
+def gen_exact():
+    """arrays of exactly 0, 1, 2 particles, and arrays where only_real leaves
+    exactly one, with limit values; built-in properties with their own
+    defaults (default_particle_tag 1 / 2, pid / gid defaults)"""
+    cases = []
+    pats = [[], [0], [0, 0], [0, 2], [2], [0, 1, 2], [1, 0], [0, 0, 0]]
+    for k, tags in enumerate(pats):
+        for oi, outs in enumerate((None, [], ['el3', 'tag'])):
+            arr = exact_array('fluid', tags, k + oi, outs,
+                              default_tag=(k + oi) % 3)
+            if (k + oi) % 3 == 1:
+                arr['late'] = [dict(name='gid', type='unsigned int', stride=1,
+                                    default=7 + k),
+                               dict(name='pid', type='int', stride=1,
+                                    default=-2 - oi)]
+            elif (k + oi) % 3 == 2:
+                arr['set_defaults'] = dict(gid=2 ** 32 - 2 - k, pid=5 + oi,
+                                           tag=(k + 1) % 3)
+            cases.append(mk_case('sysx:%d:%d' % (k, oi), [arr], k))
+    return cases
 
 
 def gen_systematic(quick):
@@ -115,10 +247,9 @@ def gen_systematic(quick):
                                    consts={'c1': dict(data=fr(1 + k % 3),
                                                       dtype='float64')})
                     arr['outs'] = prop_names(arr) if outs is None else outs
-                    cases.append(mk_case(
-                        'sys:%d' % k, [arr],
-                        dict(t=512 + k, dt=1 + k % 7, count=k),
-                        bytes_keys=(k % 4 == 0)))
+                    arr['default_tag'] = (k // 3) % 3
+                    cases.append(mk_case('sys:%d' % k, [arr], k,
+                                         bytes_keys=(k % 4 == 0)))
     # lists of several arrays with different property sets, empty arrays
     fr = Fresh()
     multi = [
@@ -142,9 +273,9 @@ def gen_systematic(quick):
                   outs=['w'])],
     ]
     for i, arrays in enumerate(multi):
-        cases.append(mk_case('sysm:%d' % i, arrays,
-                             dict(t=3, dt=1, count=0), bytes_keys=True))
+        cases.append(mk_case('sysm:%d' % i, arrays, i, bytes_keys=True))
     cases += gen_const_lists()
+    cases += gen_exact()
     return cases
 
 
@@ -187,8 +318,8 @@ def gen_const_lists():
     # identical constants in both arrays (must stay, in both)
     lists.append([arr('u', 1, fr, {'g': c([9, 9])}, ['x']),
                   arr('v', 1, fr, {'g': c([9, 9])}, ['x'])])
-    return [mk_case('sysc:%d' % i, arrays, dict(t=64 + i, dt=2, count=i),
-                    bytes_keys=True) for i, arrays in enumerate(lists)]
+    return [mk_case('sysc:%d' % i, arrays, i, bytes_keys=True)
+            for i, arrays in enumerate(lists)]
 
 
 def gen_random(seed, idx):
@@ -197,7 +328,7 @@ def gen_random(seed, idx):
     fr = Fresh()
     arrays = []
     for name in rng.sample(ANAMES, rng.choice([1, 1, 2, 3])):
-        n = rng.choice([0, 1, 2, 3, 4, 6])
+        n = rng.choice([0, 1, 1, 2, 2, 3, 4, 6])
         mode = rng.random()
         if mode < 0.25:
             tags = [0] * n
@@ -209,6 +340,7 @@ def gen_random(seed, idx):
         if rng.random() < 0.2:
             cand += ['pid', 'gid']
         props = []
+        exact = False
         for p in rng.sample(cand, rng.randint(0, 4)):
             if p == 'pid':
                 typ, stride = 'int', 1
@@ -217,9 +349,17 @@ def gen_random(seed, idx):
             else:
                 typ, stride = rng.choice(TYPES), rng.choice([1, 1, 2, 3])
             dchoice = [None, 0, 1, 7] + ([-3] if typ in SIGNED else [])
-            props.append(dict(name=p, type=typ, stride=stride,
-                              default=rng.choice(dchoice),
-                              data=fr(n * stride)))
+            data = fr(n * stride)
+            dflt = rng.choice(dchoice)
+            if rng.random() < 0.15:
+                # limit values of the C type instead of small integers
+                exact = True
+                o = rng.randint(0, 9)
+                data = [EXACT[typ][(o + j) % len(EXACT[typ])]
+                        for j in range(n * stride)]
+                dflt = EXACT[typ][o % len(EXACT[typ])]
+            props.append(dict(name=p, type=typ, stride=stride, default=dflt,
+                              data=data))
         late = []
         free = [p for p in POOL if p not in [q['name'] for q in props]]
         if rng.random() < 0.3:
@@ -232,7 +372,23 @@ def gen_random(seed, idx):
             consts[c] = dict(data=fr(rng.randint(1, 3)),
                              dtype=rng.choice(['float64', 'float64', 'int64',
                                                'float32']))
-        arr = mk_array(name, n, tags, props, late, consts)
+        if rng.random() < 0.25:
+            # the built-in properties with their own defaults
+            have = [q['name'] for q in props]
+            if 'gid' not in have:
+                late.append(dict(name='gid', type='unsigned int', stride=1,
+                                 default=rng.choice([0, 7, 2 ** 32 - 2])))
+            if 'pid' not in have and rng.random() < 0.5:
+                late.append(dict(name='pid', type='int', stride=1,
+                                 default=rng.choice([3, -1])))
+        setd = {}
+        if rng.random() < 0.2:
+            setd = dict(gid=rng.choice([0, 9]), pid=rng.choice([1, -4]))
+            if rng.random() < 0.5:
+                setd['tag'] = rng.choice([1, 2])
+        arr = mk_array(name, n, tags, props, late, consts,
+                       default_tag=rng.choice([0, 0, 0, 1, 2]), exact=exact,
+                       set_defaults=setd)
         names = prop_names(arr)
         r = rng.random()
         if r < 0.3:
@@ -242,9 +398,7 @@ def gen_random(seed, idx):
         else:
             arr['outs'] = rng.sample(names, rng.randint(1, len(names)))
         arrays.append(arr)
-    sd = dict(t=rng.randint(0, 4096), dt=rng.randint(1, 64),
-              count=rng.randint(0, 1000))
-    return mk_case(cid, arrays, sd, bytes_keys=rng.random() < 0.3)
+    return mk_case(cid, arrays, idx, bytes_keys=rng.random() < 0.3)
 
 
 SRC_FILES = ('solver/output.py', 'solver/utils.py', 'base/utils.py',
@@ -358,7 +512,7 @@ def crash_record(case, ci, rc):
     return dict(id='%s/%d' % (case['id'], ci), fmt=combo[0],
                 compress=combo[1], detailed=combo[2], only_real=combo[3],
                 variant=combo[4] if len(combo) > 4 else '', names=[],
-                arrs={}, sd=case['sd'], lnames=[], larrs={}, lsd={},
+                arrs={}, sd={}, lnames=[], larrs={}, lext={}, lsd={},
                 error='crash: driver died with rc=%d' % rc)
 
 
@@ -609,7 +763,7 @@ def check(chk):
             if sample is None and not v['failed'] and v['nvalues'] > 6 \
                     and v['nnotstored'] > 0 and t['fmt'] == 'hdf5':
                 sample = dict(id=v['id'], options=opts, arrays=d['arrays'],
-                              solver_data=d['sd'], verdict=v)
+                              solver_data=d['sd_flat'], verdict=v)
     for name, r in (('OutputMC.cfg', design), ('OutputMC.asis.cfg', asis),
                     ('OutputNamesMC', names_mc)):
         if r is not None and not r['ok']:
@@ -657,8 +811,25 @@ def check(chk):
         known_finding_samples=ksample,
     ))
     chk.assumptions += [
-        'values are small integers exactly representable in every C type; '
-        't and dt are multiples of 1/1024',
+        'values: small integers, and per C type limit values (long up to '
+        '2^63-1 and around 2^53, int / unsigned int limits, float32 and '
+        'double non-integers, -0.0, inf) compared as exact texts; arrays '
+        'holding limit values are generated aligned and their values are '
+        'written into the property arrays after construction, so the state '
+        'that is dumped does not depend on conversions of the constructor; '
+        'defaults of float properties are float32-representable',
+        'solver data: t, dt, count plus extra entries. For hdf5 (and files '
+        'with Python-2 bytes keys) only what HDF5 attributes hold faithfully '
+        '- numbers of any size, bools, str, homogeneous sequences, numpy '
+        'scalars / arrays (a list comes back as an array: compared by '
+        'elements); for npz anything picklable (None, bytes, mixed lists, '
+        'tuples, nested dictionaries with int / bytes / str keys). Outside '
+        'the statement, by decision: with hdf5 a bytes value comes back as '
+        'str and None / dict / mixed lists make h5py raise TypeError in dump',
+        'values of properties that were not stored are not demanded (the '
+        'hdf5 loader fills a tag column that was not stored with Local even '
+        'when default_particle_tag is another tag - seen in the design '
+        'model)',
         'arrays given to dump are aligned (real particles first) and their '
         'output list names properties only (a constant in the output list '
         'makes get_property_arrays raise KeyError for both formats; not '
